@@ -414,7 +414,9 @@ def canon_class(cls, memo=None):
         [b.__name__ for b in cls.__bases__],
         [b.__name__ for b in cls.__mro__],
         type(cls).__name__,
-        sorted(((k, canon(a, memo)) for k, a in attrs.items()), key=repr),
+        # __new__ is made a staticmethod implicitly by the class statement; a plain function
+        # stored under that name is called identically by type.__call__
+        sorted(((k, ("callable",) if k == "__new__" else canon(a, memo)) for k, a in attrs.items()), key=repr),
     )
 
 
@@ -476,8 +478,8 @@ def run_code(text, mode, kit=None, wall=20, extra_ns=None, want_globals=True,
         # form) and are visited in sorted order; helper names never touch that memo
         memo = {}
         for k in sorted(ns):
-            if k in initial or k == "__builtins__":
-                continue
+            if k in initial or (k.startswith("__") and k.endswith("__")):
+                continue   # __builtins__, __annotations__, ...: bookkeeping, not user names
             helper = k.startswith("__ol_") or k in HELPER_MODULES
             try:
                 g[k] = canon(ns[k], {} if helper else memo)
